@@ -163,6 +163,26 @@ def s_eval(F, R, I):
             n += 1
             if not (isinstance(got, (int, float)) and float(got) == want):
                 bad.append("UnOp %s(%s)=%r, expected %r" % (op, x, got, want))
+    # abs and the n-ary forms: operand tuples over a sign-covering value set (all-negative tuples included)
+    import itertools
+    wide = [-2.0, -1.0, 0.0, 1.0, 2.0]
+    for x in wide:
+        got = I.call_fn("builder::expr::eval_expr", [Var(XE + "::Abs", [Var(XE + "::Number", [x])]), var])
+        n += 1
+        if not (isinstance(got, (int, float)) and float(got) == abs(x)):
+            bad.append("Abs(%s)=%r, expected %r" % (x, got, abs(x)))
+    for k in ("Min", "Max", "And", "Or"):
+        for ln in (1, 2, 3):
+            for tup in itertools.product(wide, repeat=ln):
+                inp = Var(XE + "::" + k, [ListV([Var(XE + "::Number", [x]) for x in tup])])
+                got = I.call_fn("builder::expr::eval_expr", [inp, var])
+                if k in ("Min", "Max"):
+                    want = min(tup) if k == "Min" else max(tup)
+                else:
+                    want = float(c10.evaluate(("nary", k, [("num", Fraction(x)) for x in tup]), {}))
+                n += 1
+                if not (isinstance(got, (int, float)) and float(got) == want):
+                    bad.append("%s%s=%r, expected %r" % (k, list(tup), got, want))
     R.count("S-EVAL.cells", n)
     R.ob("S-EVAL", "operator-tables", not bad, "packages/rooc/src/builder/expr.rs", "eval_expr disagrees with the language semantics on %d of %d constant cells: %s" % (len(bad), n, bad[:6]))
     for fn_, cases in (("builder::expr::truthy", ((0.0, False), (-0.0, False), (2.0, True), (-1.0, True))), ("builder::expr::bool_num", ((True, 1.0), (False, 0.0)))):
